@@ -146,7 +146,7 @@ def step_oracle(cfg, path, ob, fp, par, fails):
         if 'sampling' in ch:
             ba['sampling'] = (par['sampling_v'], fp['sampling_v'])
         if 'params' in ch or 'buffers' in ch:
-            ba['changed tensors'] = [k for k in fp['tensors_v'] if fp['tensors_v'][k] != par['tensors_v'].get(k)][:8]
+            ba['changed tensors'] = ([k for k in fp['tensors_v'] if fp['tensors_v'][k] != par['tensors_v'].get(k)] + ['(gone) ' + k for k in par['tensors_v'] if k not in fp['tensors_v']])[:8]
         if 'reqgrad' in ch:
             ba['reqgrad'] = ('un-frozen by the call: %s' % sorted(set(par['reqgrad_v']) - set(fp['reqgrad_v']))[:8], 'frozen by the call: %s' % sorted(set(fp['reqgrad_v']) - set(par['reqgrad_v']))[:8])
         if 'attrs' in ch:
@@ -207,7 +207,7 @@ def path_oracles(cfg, nodes, fails):
             anc = path[:k]
             if anc in nodes and spec_after(cfg, anc) == spec_after(cfg, path) and nodes[anc][1]['cost'] != fp['cost']:
                 fails.append(('set-spec-roundtrip-cost-differs:%s' % tag, {'cfg': cfg, 'ops': list(path), 'earlier': list(anc)},
-                              'cost values under specification %s on %s differ between %s and %s (only observers and specification switches in between)' % (spec_after(cfg, path), cfg_name(cfg), list(anc), list(path))))
+                              'cost values under specification %s on %s differ between %s and %s (only observers and specification switches in between): %s vs %s' % (spec_after(cfg, path), cfg_name(cfg), list(anc), list(path), {k: _fl(v) for k, v in nodes[anc][1]['costs'].items()}, {k: _fl(v) for k, v in fp['costs'].items()})))
                 break
 
 
@@ -430,7 +430,7 @@ def replay(r):
             ch = [k for k in STATE + DERIVED if fp[k] != par[k]]
             print('step %d %-18s -> %-16s changed: %s' % (i + 1, op, str(res['obs'][i])[:16], ch or 'nothing'))
             if 'params' in ch or 'buffers' in ch:
-                print('        changed tensors of the state_dict: %s' % [k for k in fp['tensors_v'] if fp['tensors_v'][k] != par['tensors_v'].get(k)][:8])
+                print('        changed tensors of the state_dict: %s' % ([k for k in fp['tensors_v'] if fp['tensors_v'][k] != par['tensors_v'].get(k)] + ['(gone) ' + k for k in par['tensors_v'] if k not in fp['tensors_v']])[:8])
             if 'reqgrad' in ch:
                 print('        parameters un-frozen by the call: %s  frozen by the call: %s' % (sorted(set(par['reqgrad_v']) - set(fp['reqgrad_v']))[:8], sorted(set(fp['reqgrad_v']) - set(par['reqgrad_v']))[:8]))
             if 'attrs' in ch:
@@ -450,7 +450,7 @@ def replay(r):
     if 'earlier' in r:
         k = len(r['earlier'])
         same = res['fps'][k]['cost'] == res['fps'][-1]['cost']
-        print('cost values after %s vs after %s: %s' % (r['earlier'], ops, 'same' if same else 'DIFFERENT'))
+        print('cost values after %s vs after %s: %s   (%s vs %s)' % (r['earlier'], ops, 'same' if same else 'DIFFERENT', {k: _fl(v) for k, v in res['fps'][k]['costs'].items()} if False else res['fps'][len(r['earlier'])]['costs'], res['fps'][-1]['costs']))
         bad += (not same)
     print('required: every observer call (export / summary / cost / get_cost) leaves parameters, buffers, training flags, sampled coefficients, RNG position, '
           'cost values, summary, export and outputs unchanged ->', 'HOLDS on this history' if not bad else 'VIOLATED')
